@@ -13,6 +13,7 @@ import (
 	"time"
 
 	"github.com/herohde/morlock/pkg/board"
+	"github.com/herohde/morlock/pkg/board/fen"
 	"github.com/herohde/morlock/pkg/engine"
 	"github.com/herohde/morlock/pkg/eval"
 	"github.com/herohde/morlock/pkg/search"
@@ -573,11 +574,16 @@ func ucisched(args []string) {
 			k := len(line) - 1
 			prefix := append([]string{}, line[:k]...)
 			if r.Intn(3) != 0 {
+				// swap two moves of one side, if the reordered line is still a legal game
+				alt := append([]string{}, prefix...)
 				a := r.Intn(k)
 				if b := a + 2; b < k {
-					prefix[a], prefix[b] = prefix[b], prefix[a]
+					alt[a], alt[b] = alt[b], alt[a]
 				} else if b := a - 2; b >= 0 {
-					prefix[a], prefix[b] = prefix[b], prefix[a]
+					alt[a], alt[b] = alt[b], alt[a]
+				}
+				if legalLine(alt) {
+					prefix = alt
 				}
 			}
 			spec := ucih.EngineSpec{Name: "linebook", Book: true, Seed: r.Int63()}
@@ -589,6 +595,25 @@ func ucisched(args []string) {
 	w.Close()
 	_ = os.Stdout
 	_ = strings.TrimSpace
+}
+
+// legalLine: the moves form a legal game from the start position.
+func legalLine(moves []string) bool {
+	pos, turn, np, fm, _ := fen.Decode(fen.Initial)
+	b := board.NewBoard(board.NewZobristTable(0), pos, turn, np, fm)
+	for _, t := range moves {
+		ok := false
+		for _, m := range b.Position().PseudoLegalMoves(b.Turn()) {
+			if moveText(m) == t && b.PushMove(m) {
+				ok = true
+				break
+			}
+		}
+		if !ok {
+			return false
+		}
+	}
+	return true
 }
 
 // realScript: sessions for the real searches: small depths, stop after infinite, movetime.
